@@ -130,11 +130,15 @@ def _inject(draw, d):
         _inject(draw, c)
 
 
+CFG_CX = gen.Cfg(max_depth=3, leaf_dtypes=("complex128", "complex64", "complex128", "float64", "int64"), nan=True, extremes=True)
+
+
 @st.composite
-def _output_case(draw):
-    T = draw(gen.types(CFG))
-    vals = draw(gen.values(T, CFG))
-    desc = draw(gen.encode(T, vals, CFG))
+def _output_case(draw, cfg=None):
+    cfg = cfg or CFG
+    T = draw(gen.types(cfg))
+    vals = draw(gen.values(T, cfg))
+    desc = draw(gen.encode(T, vals, cfg))
     _inject(draw, desc)
     sp = draw(_specials(4))
     cx = list(draw(st.permutations(["r", "i", "real", "imag", "re im", "ℜ", 'q"']))[:2]) if draw(st.integers(0, 3)) > 0 else \
@@ -223,17 +227,38 @@ def _pin_case(draw):
 @st.composite
 def _pout_case(draw):
     """tier P: ak.to_json of a generated array (string or file destination) and ak.from_json of what it wrote"""
-    base = draw(_output_case())
+    cxrich = draw(st.booleans())
+    base = draw(_output_case(CFG_CX if cxrich else CFG))
     o = base["opts"]
-    if draw(st.integers(0, 2)) > 0 and (o["re"] is None or o["im"] is None):
+    if (cxrich or draw(st.integers(0, 2)) > 0) and (o["re"] is None or o["im"] is None):
         o["re"], o["im"] = list(draw(st.permutations(_CX_POOL))[:2])        # complex_record_fields is a pair or None
     if o["re"] is None or o["im"] is None:
         o["re"] = o["im"] = None
     return {"kind": "pout", "desc": base["desc"], "opts": o, "reader": base["reader"], "tofile": draw(st.integers(0, 2)) == 0}
 
 
+@st.composite
+def _shim_case(draw):
+    """harness self-validation: a batch of texts (valid, concatenated, cut, corrupted) for the RapidJSON stand-in alone"""
+    texts = []
+    for _ in range(draw(st.integers(4, 10))):
+        mode = draw(st.integers(0, 5))
+        if mode == 0:
+            _, text = draw(JT.concatenated(JT.VCfg(beyond_ints=True), kmax=3))
+        else:
+            text = draw(JT.texts_of(draw(JT.json_values(JT.VCfg(beyond_ints=(mode == 1), max_leaves=8)))))
+        b = text.encode("utf-8")
+        if mode == 2 and b:
+            b = b[:draw(st.integers(0, len(b) - 1))]
+        elif mode == 3 and b:
+            pos, byte = draw(JT.corruptions(b, 1))[0]
+            b = JT.apply_corruption(b, pos, byte, draw(st.sampled_from(["replace", "delete", "insert"])))
+        texts.append(JT.pack(b))
+    return {"kind": "shim", "texts": texts}
+
+
 def strategy(tier):
-    return st.one_of(_output_case(), _output_case(), _output_case(), _input_case(), _input_case(), _input_case(), _concat_case(),
+    return st.one_of(_shim_case(), _output_case(), _output_case(), _output_case(), _input_case(), _input_case(), _input_case(), _concat_case(),
                      _truncate_case(), _corrupt_case(), _corrupt_case(), _pin_case(), _pout_case())
 
 
@@ -941,6 +966,50 @@ def run_corrupt(case):
     return {"tags": sorted(tags), "counts": counts, "nontrivial": base == "valid" and nested, "sample_class": "corrupt"}
 
 
+# =========================================================================== the RapidJSON stand-in against Python's json (harness self-validation)
+def run_shim(case):
+    """shim/selftest/rt.cpp (built as rjselftest) parses each text with the stand-in's DOM parser, re-prints it compact and pretty,
+    re-parses, and counts documents with the stop-when-done SAX loop. Any disagreement with Python's json is a HarnessError:
+    the stand-in is ours (DESIGN 2.2), a deviation of it is never a finding about /repo."""
+    exe = os.path.join(build_dir("plain"), "rjselftest")
+    if not os.path.exists(exe):
+        raise HarnessError("stand-in self-test binary %s is missing (make all)" % exe)
+    datas = [JT.unpack(t) for t in case["texts"]]
+    datas = [d.split(b"\x00")[0] for d in datas]                 # C-string interface
+    env = {k: v for k, v in os.environ.items() if k not in ("LD_PRELOAD", "ASAN_OPTIONS", "UBSAN_OPTIONS")}
+    p = subprocess.run([exe], input=("\n".join(d.hex() for d in datas) + "\n").encode(), capture_output=True, env=env, timeout=120)
+    lines = p.stdout.decode().splitlines()
+    if p.returncode != 0 or len(lines) != len(datas):
+        raise HarnessError("rjselftest failed (status %d, %d lines for %d texts): %s" % (p.returncode, len(lines), len(datas), p.stderr.decode("utf-8", "replace")[-500:]))
+    counts = {"shim_texts": 0, "shim_valid": 0, "shim_invalid": 0, "shim_multi": 0, "shim_unasserted": 0}
+    none = {"nan": None, "inf": None, "minf": None}
+    for data, line in zip(datas, lines):
+        main, nd = line.split(" | ")
+        judged = classify(data, none)
+        counts["shim_texts"] += 1
+        if judged.kind == "unasserted" or b"NaN" in data or b"Inf" in data:
+            counts["shim_unasserted"] += 1         # outside the premise / literals that only kParseNanAndInfFlag reads
+            continue
+        want_nd = len(judged.docs) if judged.kind == "valid" else -1
+        if int(nd) != want_nd:
+            raise HarnessError("stand-in SAX loop finds %s documents, Python's json %d, in %r" % (nd, want_nd, data))
+        single = judged.kind == "valid" and len(judged.docs) == 1
+        if main.startswith("OK") != single:
+            raise HarnessError("stand-in DOM parser %s a text that is %sone well-formed document: %r" % ("accepts" if main.startswith("OK") else "rejects", "" if single else "not ", data))
+        if single:
+            _, compact, pretty, eq = main.split(" ")
+            cv = json.loads(bytes.fromhex(compact).decode("utf-8"))
+            pv = json.loads(bytes.fromhex(pretty).decode("utf-8"))
+            if eq != "1" or not jsame(judged.docs[0], cv) or not jsame(cv, judged.docs[0]) or not jsame(cv, pv) or not jsame(pv, cv):
+                raise HarnessError("stand-in changes a value when printing / re-parsing: %r -> %r / %r (reparse equal: %s)" % (data, cv, pv, eq))
+            counts["shim_valid"] += 1
+        elif judged.kind == "valid":
+            counts["shim_multi"] += 1
+        else:
+            counts["shim_invalid"] += 1
+    return {"tags": ["part:shim_selftest"], "counts": counts, "nontrivial": False, "sample_class": "shim"}
+
+
 # =========================================================================== tier P: ak.to_json / ak.from_json / ak.from_iter (/repo/src/awkward on the _ext emulation)
 _PAK = [None]
 
@@ -1349,6 +1418,8 @@ def run_case(case):
         return run_truncate(case)
     if k == "corrupt":
         return run_corrupt(case)
+    if k == "shim":
+        return run_shim(case)
     if k == "pin":
         return run_pin(case)
     if k == "pout":
